@@ -1,6 +1,34 @@
 //! translator <target|all> [--repo /repo] [--out /verif/coq/gen] [--report-dir /verif/.cache/gen]
-//! Targets: config (KyroDbConfig::validate -> Config_gen.v), search_k (hnsw_backend::compute_search_k -> SearchK_gen.v).  Exit status: 0 ok, 2 fail-closed, 1 usage/io.
-use kvh_translator::{target_config, target_search_k, write_if_changed};
+//! Targets: config (KyroDbConfig::validate -> Config_gen.v), search_k (hnsw_backend::compute_search_k -> SearchK_gen.v),
+//! token_bucket (rate_limiter::TokenBucket -> Bucket_gen.v), tenant_id_mapper (kyrodb_server TenantIdMapper -> TenantId_gen.v),
+//! ordered_f64 (hnsw_backend::OrderedF64::from_f64 -> OrderedF64_gen.v).  Exit status: 0 ok, 2 fail-closed, 1 usage/io.
+use kvh_translator::{target_config, target_ordered_f64, target_search_k, target_tenant_id, target_token_bucket, write_if_changed};
+
+/// shared tail of the simple targets: write <stem>.v (if changed) and <stem>.json; returns the exit status
+fn emit(target: &str, stem: &str, out: &str, report_dir: &str, res: Result<(String, serde_json::Value), serde_json::Value>) -> i32 {
+    let report_path = format!("{}/{}.json", report_dir, stem);
+    match res {
+        Ok((coq, report)) => {
+            let changed = match write_if_changed(&format!("{}/{}.v", out, stem), &coq) {
+                Ok(c) => c,
+                Err(e) => { eprintln!("translator: cannot write {}.v: {}", stem, e); std::process::exit(1) }
+            };
+            let _ = std::fs::write(&report_path, serde_json::to_string_pretty(&report).unwrap());
+            let n = report["functions"].as_array().map_or(0, |a| a.len());
+            println!("translator: {} ok: {} function(s), {}.v {}", target, n, stem, if changed { "rewritten" } else { "unchanged" });
+            0
+        }
+        Err(v) => {
+            let _ = std::fs::write(&report_path, serde_json::to_string_pretty(&v).unwrap());
+            eprintln!(
+                "translator: FAIL-CLOSED target={} stage={} {}:{}: construct `{}`: {}",
+                target, v["stage"].as_str().unwrap_or("?"), v["file"].as_str().unwrap_or("?"), v["line"],
+                v["construct"].as_str().unwrap_or("?"), v["message"].as_str().unwrap_or("?")
+            );
+            2
+        }
+    }
+}
 
 fn main() {
     let args: Vec<String> = std::env::args().collect();
@@ -21,7 +49,7 @@ fn main() {
     }
     let _ = std::fs::create_dir_all(&report_dir);
     let mut rc = 0;
-    let targets: Vec<&str> = if target == "all" { vec!["config", "search_k"] } else { vec![target.as_str()] };
+    let targets: Vec<&str> = if target == "all" { vec!["config", "search_k", "token_bucket", "tenant_id_mapper", "ordered_f64"] } else { vec![target.as_str()] };
     for t in targets {
         match t {
             "config" => {
@@ -68,6 +96,15 @@ fn main() {
                         rc = 2;
                     }
                 }
+            }
+            "token_bucket" => {
+                rc = rc.max(emit(t, "Bucket_gen", &out, &report_dir, target_token_bucket::run(&repo).map(|o| (o.coq, o.report))));
+            }
+            "tenant_id_mapper" => {
+                rc = rc.max(emit(t, "TenantId_gen", &out, &report_dir, target_tenant_id::run(&repo).map(|o| (o.coq, o.report))));
+            }
+            "ordered_f64" => {
+                rc = rc.max(emit(t, "OrderedF64_gen", &out, &report_dir, target_ordered_f64::run(&repo).map(|o| (o.coq, o.report))));
             }
             other => { eprintln!("translator: unknown target {}", other); std::process::exit(1) }
         }
